@@ -203,6 +203,69 @@ class FnTaint:
             return "field " + self._field_name(op[1])
         return None
 
+    def lower_bound_at(self, op, bb):
+        """largest constant c such that a dominating branch edge establishes `value >= c` at block bb, for the operand's own local or a
+        plain copy / widening cast of it (None if no such edge).  Used for `x - K`: only a *lower* bound on x makes it safe."""
+        f = self.fn
+        if self.cfg is None:
+            self.cfg = mirg.Cfg(f)
+            self.du = mirg.DefUse(f)
+        l = op_local(op)
+        if l is None:
+            return None
+        # the local and what it was copied / cast from, and copies of those
+        same = {l}
+        work = [l]
+        while work:
+            x = work.pop()
+            for _b, k_, p_ in self.du.defs.get(x, []):
+                if k_ == "assign" and p_[2][0] in ("use", "cast") :
+                    for o_ in mirg.rvalue_operands(p_[2]):
+                        ol = op_local(o_)
+                        if ol is not None and ol not in same and not pproj(o_[1]) if o_[0] in ("c", "m") else False:
+                            same.add(ol)
+                            work.append(ol)
+        best = None
+        blocks = f.mir["blocks"]
+        for i, b in enumerate(blocks):
+            t = b["t"]
+            if t["k"] != "switch" or i == bb or not self.cfg.dominates(i, bb):
+                continue
+            dl = op_local(t["d"])
+            for _b, k_, p_ in self.du.defs.get(dl, []) if dl is not None else []:
+                if k_ != "assign" or p_[2][0] != "bin" or p_[2][1] not in ("Lt", "Le", "Gt", "Ge", "Eq", "Ne"):
+                    continue
+                a_, b_ = p_[2][2], p_[2][3]
+                opn = p_[2][1]
+                if mirg.op_int(a_) is not None and op_local(b_) is not None:
+                    a_, b_ = b_, a_
+                    opn = {"Lt": "Gt", "Le": "Ge", "Gt": "Lt", "Ge": "Le", "Eq": "Eq", "Ne": "Ne"}[opn]
+                c = mirg.op_int(b_)
+                xl = op_local(a_)
+                if c is None or xl is None:
+                    continue
+                xs = {xl}
+                for _b2, k2, p2 in self.du.defs.get(xl, []):
+                    if k2 == "assign" and p2[2][0] in ("use", "cast"):
+                        for o_ in mirg.rvalue_operands(p2[2]):
+                            if op_local(o_) is not None:
+                                xs.add(op_local(o_))
+                if not (xs & same):
+                    continue
+                # which edge leads to bb: the one for "condition false" (value 0) or the other
+                false_t = [tg for v_, tg in t["ts"] if v_ == 0]
+                true_t = t.get("o")
+                on_true = true_t is not None and (true_t == bb or self.cfg.dominates(true_t, bb)) and not (false_t and (false_t[0] == bb or self.cfg.dominates(false_t[0], bb)))
+                on_false = bool(false_t) and (false_t[0] == bb or self.cfg.dominates(false_t[0], bb)) and not (true_t is not None and (true_t == bb or self.cfg.dominates(true_t, bb)))
+                lb = None
+                if on_true:
+                    lb = {"Gt": c + 1, "Ge": c, "Eq": c}.get(opn)
+                elif on_false:
+                    lb = {"Lt": c, "Le": c + 1}.get(opn)
+                if lb is not None:
+                    best = lb if best is None else max(best, lb)
+        return best
+
     def sanitised(self, op, bb, strict=False, asserts=True, zero_test=False, lower_ok=True):
         """generous: any dominating ordered comparison on the value / an ancestor / a sibling copy, or a sanitising call in its derivation.
         strict=True: "related value" means sharing an *integer-typed* ancestor (not merely the same struct reference / iterator)"""
@@ -439,6 +502,12 @@ class FnTaint:
                                 lo, fo = self._aliases(o)
                                 if (lo & lb) or (fo & fb):
                                     return "minuend is the subtrahend plus a value"
+                # a = b.saturating_add(x) / b.wrapping... no: only the saturating form keeps a >= b for unsigned operands
+                if k_ == "call" and re.search(r"impl u(8|16|32|64|size)>::saturating_add$|^u(8|16|32|64|size)::saturating_add$", (mirg.callee(p_) or "")) and p_.get("a"):
+                    for o_ in p_["a"][:2]:
+                        lo, fo = self._aliases(o_)
+                        if (lo & lb) or (fo & fb):
+                            return "minuend is the subtrahend plus a value (saturating)"
         for i, b in enumerate(f.mir["blocks"]):
             t = b["t"]
             if t["k"] != "switch" or i == bb or not self.cfg.dominates(i, bb):
